@@ -19,6 +19,7 @@ import (
 	"github.com/jcmturner/gokrb5/v8/types"
 	"pgregory.net/rapid"
 
+	"verif/harness/c10"
 	"verif/harness/evid"
 	"verif/harness/mint"
 	"verif/harness/ref/der"
@@ -96,6 +97,19 @@ var catalogue = []perturb{
 	// RFC 4120: in a TGS reply authtime is that of the original login and may be old; starttime is current
 	{"authtime-old-starttime-now", "reject", "accept", func(c Case, x *kdc.ReplyCtx, p int64) {
 		shift(x.Enc, "authtime", -2*time.Hour)
+	}},
+	// starttime is OPTIONAL: a reply without it must still have its authtime inside the skew
+	{"no-starttime-authtime-inside", "accept", "accept", func(c Case, x *kdc.ReplyCtx, p int64) {
+		delete(x.Enc, "starttime")
+		shift(x.Enc, "authtime", -(skewMs-margin)*time.Millisecond)
+	}},
+	{"no-starttime-authtime-past-outside", "reject", "reject", func(c Case, x *kdc.ReplyCtx, p int64) {
+		delete(x.Enc, "starttime")
+		shift(x.Enc, "authtime", -(skewMs+margin)*time.Millisecond)
+	}},
+	{"no-starttime-authtime-future-outside", "reject", "reject", func(c Case, x *kdc.ReplyCtx, p int64) {
+		delete(x.Enc, "starttime")
+		shift(x.Enc, "authtime", (skewMs+margin)*time.Millisecond)
 	}},
 	{"key-other", "reject", "reject", func(c Case, x *kdc.ReplyCtx, p int64) {
 		x.ReplyKey = mint.Key{EType: x.ReplyKey.EType, Value: ref.RandomKey(x.ReplyKey.EType, []byte("an-unrelated-key-an-unrelated-key-0123456789"))}
@@ -175,6 +189,12 @@ func Effect(c Case) string {
 	if c.Exchange == "AS" {
 		e = p.as
 	}
+	if c.Exchange == "TGS-REF" {
+		switch c.Perturb {
+		case "ticket-sname-other", "ticket-realm-other", "enc-sname-other", "enc-srealm-other":
+			return "free" // changes where the client is sent next; the statement does not decide it
+		}
+	}
 	switch c.Perturb {
 	case "usage-other":
 		if c.EType == ref.RC4 {
@@ -193,7 +213,7 @@ func Effect(c Case) string {
 			return "free" // the request listed no addresses: same situation as caddr-added
 		}
 	case "crealm-other":
-		if c.Exchange == "TGS" && !c.E2E {
+		if c.Exchange != "AS" && !c.E2E {
 			// TGSRep.Verify(cfg, tgsReq) is not given the client's realm (the TGS-REQ body carries only the
 			// server realm), so at the message level the comparison cannot be made; the exchange as a whole
 			// (Client.GetServiceTicket, end-to-end cases) must reject it
@@ -389,8 +409,79 @@ func Eval(c Case) evid.Verdict {
 	})
 }
 
+// evalReferral: the service lives one realm away and there is no [domain_realm] mapping, so the home KDC
+// answers with a referral TGT. The perturbation is applied to that intermediate reply only (Exchange
+// "TGS-REF") - the client must check a referral reply like any other TGS reply.
+func evalReferral(c Case) evid.Verdict {
+	spec := c10.Spec{Seed: c.Seed, Cred: c.Cred, ETypes: []int32{c.EType}, Preauth: "none", NoAddr: !c.Addrs, Hops: 1, Via: "referral", KDCs: 1}
+	w, err := c10.Build(&spec)
+	if err != nil {
+		return evid.Fail("harness", "build: %v", err)
+	}
+	defer w.Stop()
+	var prev int64 = 424242
+	applied := 0
+	w.Realms[0].Mutate = func(x *kdc.ReplyCtx) {
+		if x.Kind != "TGS" || !strings.HasPrefix(x.Ticket.SName, "krbtgt/") {
+			return
+		}
+		applied++
+		if c.Perturb == "krb-error" {
+			code := c.Code
+			x.Error = &code
+			return
+		}
+		perturbByName(c.Perturb).f(c, x, prev)
+	}
+	cl := w.NewClient()
+	defer cl.Destroy()
+	done := make(chan error, 1)
+	t0 := time.Now()
+	go func() {
+		if err := cl.Login(); err != nil {
+			done <- fmt.Errorf("login: %v", err)
+			return
+		}
+		_, _, err := cl.GetServiceTicket(spec.SPN(0))
+		done <- err
+	}()
+	var rerr error
+	select {
+	case rerr = <-done:
+	case <-time.After(60 * time.Second):
+		return evid.Fail("no-return", "client call did not return within 60 s; %+v", c)
+	}
+	if time.Since(t0) > 1500*time.Millisecond {
+		return evid.Pass()
+	}
+	ctx := fmt.Sprintf("referral reply of the home KDC perturbed (%q, code %d), etype %d, %s credentials; perturbation applied to %d replies; final-realm KDC saw %d requests", c.Perturb, c.Code, c.EType, c.Cred, applied, len(w.Realms[1].SnapshotSeen()))
+	if applied == 0 {
+		return evid.Fail("harness", "no referral reply was produced; %s", ctx)
+	}
+	if c.Perturb == "krb-error" {
+		if rerr == nil {
+			return evid.Fail("krb-error-accepted", "the call succeeded although the KDC answered KRB-ERROR; %s", ctx)
+		}
+		return evid.Pass()
+	}
+	switch Effect(c) {
+	case "accept":
+		if rerr != nil {
+			return evid.Fail("reject-valid:TGS-REF:"+c.Perturb, "a correct referral chain failed: %v; %s", rerr, ctx)
+		}
+	case "reject":
+		if rerr == nil {
+			return evid.Fail("accept-despite:TGS-REF:"+c.Perturb, "the client followed a referral reply that does not answer its request; %s", ctx)
+		}
+	}
+	return evid.Pass()
+}
+
 // evalE2E: the same perturbation sent over the wire to a real client.
 func evalE2E(c Case) evid.Verdict {
+	if c.Exchange == "TGS-REF" {
+		return evalReferral(c)
+	}
 	ip := kdc.UniqueIP()
 	addr := ip + ":8890"
 	wd, err := build(c, []string{addr})
@@ -510,6 +601,9 @@ func TestProp(t *testing.T) {
 		if c.Cred == "keytab" {
 			c.Salted = false
 		}
+		if c.Exchange == "TGS" && rapid.IntRange(0, 9).Draw(t, "referral") == 0 {
+			c.Exchange, c.E2E, c.Addrs, c.Salted = "TGS-REF", true, false, false
+		}
 		count(r, c)
 		if r.Judge("reply", c, Eval(c)) {
 			t.Fatalf("violation")
@@ -546,6 +640,11 @@ func TestProp(t *testing.T) {
 			if r.Thorough() || (pi+ei+int(r.Seed()))%3 == 0 {
 				jobs = append(jobs, Case{Exchange: ex, EType: ref.ETypes[(pi+ei)%6], Cred: []string{"password", "keytab"}[pi%2], Perturb: p, Seed: r.Seed()*53 + uint64(pi), E2E: true, Addrs: pi%3 == 0})
 			}
+		}
+	}
+	for pi, p := range names {
+		if r.Thorough() || (pi+int(r.Seed()))%2 == 0 || strings.HasPrefix(p, "crealm") || strings.HasPrefix(p, "nonce") || strings.HasPrefix(p, "cname") {
+			jobs = append(jobs, Case{Exchange: "TGS-REF", EType: ref.ETypes[pi%6], Cred: []string{"password", "keytab"}[pi%2], Perturb: p, Seed: r.Seed()*59 + uint64(pi), E2E: true, Addrs: false})
 		}
 	}
 	r.Rule("enum: every perturbation x exchange x etype x credential kind x addresses (quick: a seeded 1/3 slice) on the fast path; every KRB-ERROR code 1..93 and four unknown codes on both exchanges (end-to-end for a slice); the catalogue end-to-end")
